@@ -9,6 +9,7 @@ mod u2b;
 mod u3;
 mod u5;
 mod u6;
+mod u8;
 mod u9;
 mod util;
 
@@ -22,6 +23,8 @@ fn main() {
   let code = match (args[1].as_str(), args[2].as_str()) {
     ("u3", "find") => u3::find(rest),
     ("u3", "replay") => u3::replay(rest),
+    ("u3", "findpos") => u3::find_position(rest),
+    ("u3", "replaypos") => u3::replay_position(rest),
     ("u1", "find") => u1::find(rest),
     ("u1", "replay") => u1::replay(rest),
     ("u1", "raw") => u1::raw(rest),
@@ -35,6 +38,8 @@ fn main() {
     ("u5", "replay") => u5::replay(rest),
     ("u6", "find") => u6::find(rest),
     ("u6", "replay") => u6::replay(rest),
+    ("u8", "find") => u8::find(rest),
+    ("u8", "replay") => u8::replay(rest),
     ("u9", "find") => u9::find(rest),
     ("u9", "replay") => u9::replay(rest),
     _ => {
